@@ -184,10 +184,14 @@ class SymInt:
     def __class__(self):  # isinstance(x, int) True; isinstance(x, bool) False
         return int
 
-    def _cmp(self, o, f, default, same):
+    def _cmp(self, o, f, default, same, symmetric=False):
         if type(o) is SymInt:
             if o is self or o.e.eq(self.e):
                 return same  # identical terms: decided without the solver
+            if symmetric and self.e.sexpr() > o.e.sexpr():
+                # a == b and b == a are one decision: C code (set/dict comparison) may present the operands in
+                # either order depending on hash-table layout, which must not look like nondeterminism
+                return SymBool(f(o.e, self.e))
             return SymBool(f(self.e, o.e))
         b = _zi(o)
         if b is None:
@@ -212,10 +216,10 @@ class SymInt:
         return self._cmp(o, lambda a, b: a >= b, NotImplemented, True)
 
     def __eq__(self, o):
-        return self._cmp(o, lambda a, b: a == b, False, True)
+        return self._cmp(o, lambda a, b: a == b, False, True, symmetric=True)
 
     def __ne__(self, o):
-        return self._cmp(o, lambda a, b: a != b, True, False)
+        return self._cmp(o, lambda a, b: a != b, True, False, symmetric=True)
 
     def __bool__(self):
         return CUR.decide(self.e != 0)
